@@ -224,7 +224,7 @@ def install_externals(reg):
         res = []
         pr, pn = ex.split(p, mayraise("compile", src))
         if pr is not None:
-            res.append((pr, Raise("Exception", "compile() failed")))
+            res.append((pr, Raise("CompileException", "compile() failed")))
         if pn is not None:
             res.append((pn, uf("COMPILE", src)))
         return res
@@ -241,7 +241,7 @@ def install_externals(reg):
         res = []
         pr, pn = ex.split(p, mayraise("exec", code))
         if pr is not None:
-            res.append((pr, Raise("Exception", "exec() raised")))
+            res.append((pr, Raise("ExecException", "exec() raised")))
         if pn is not None:
             old = pn.heap[loc.oid]["attrs"]["contents"]
             new = uf("EXEC", code, old)
